@@ -16,7 +16,8 @@ THEOREMS = [
     "C14.palette_unchanged", "C14.nocolor", "C14.cache_fresh", "C14.no_error", "C14.no_error_add",
     "C14.parsed_colors_accepted", "C14.global_off_same", "C14.resolve_spec_global", "C14.synced_fresh",
     "C14.registered_class_described", "C14.synced_pending_uncoloured", "C14.no_error_global", "C14.no_error_pal",
-    "C14.setGlobal_reentrant_raises",
+    "C14.setGlobal_reentrant_raises", "C14.single_conf_same", "C14.non_global_registration_inert",
+    "C14.synced_follow_current_global",
 ]
 
 
@@ -246,7 +247,8 @@ def _report(col, text):
 # ------------------------------------------------------------------ real code
 def impl(case):
     col = _color()
-    uses_global = any(l.split()[0] in ("glob", "syn", "sget") for l in case["lines"] if l)
+    uses_global = any(l.split()[0] in ("glob", "syn", "sget") for l in case["lines"] if l) or \
+        sum(1 for l in case["lines"] if l.startswith("new ")) > 1
     if not uses_global:
         return _impl(col, case, None)
     # the case owns the module state of ak.color: another (fresh) configuration is the global one at the start and
@@ -275,6 +277,7 @@ def _accessors(p, check_get_color):
 
 def _impl(col, case, synced):
     conf, dead, classes = None, False, []
+    confs, globbed = [], False           # the configurations of the case; whether one of them was made the global one
     out = []
     for line in case["lines"]:
         op, *args = line.split()
@@ -308,6 +311,13 @@ def _impl(col, case, synced):
                     out.append("bad-op")
                     continue
                 conf = col.ColorsConfig(cfg, no_color=args[0] == "1")
+                confs.append(conf)
+                out.append("ok")
+            elif op == "use":
+                if not args[0].isdigit() or int(args[0]) >= len(confs):
+                    out.append("bad-op")
+                    continue
+                conf = confs[int(args[0])]
                 out.append("ok")
             elif op == "add":
                 cfg = parse_cfg(args)
@@ -334,6 +344,7 @@ def _impl(col, case, synced):
                     out.append("bad-op")
                     continue
                 col.set_global_colors_config(conf)
+                globbed = True
                 out.append("ok")
             elif op == "syn":
                 k = int(args[0])
@@ -342,10 +353,10 @@ def _impl(col, case, synced):
                     continue
                 synced[k] = classes[k](synced=True)
                 # (Palette.get_color / make_report of a synced palette keep the values of its creation: not compared)
-                out.append(_accessors(synced[k], False) if col._GLOBAL_COLORS_CONF is conf else "ok pre-global")
+                out.append(_accessors(synced[k], False) if globbed else "ok pre-global")
             elif op == "sget":
                 k = int(args[0])
-                if conf is None or synced is None or k not in synced or col._GLOBAL_COLORS_CONF is not conf:
+                if conf is None or synced is None or k not in synced or not globbed:
                     out.append("bad-op")
                     continue
                 out.append(_accessors(synced[k], False))
@@ -582,22 +593,22 @@ class _Spec:
 
 def _oracle_walk(case, replies):
     col = _color()
-    spec, classes, registered, names = None, [], set(), set()
+    spec, classes = None, []      # spec: the configuration the lines act on
+    specs, gspec, synced = [], None, []    # all configurations of the case; the current global one; synced classes
 
-    def register(k):
-        if k in registered:
+    def register(k, sp):
+        """class k (parents first) becomes a component of configuration sp, once"""
+        if k in sp.registered:
             return
         parents, accs, dflt = classes[k]
         for p in parents:
-            register(p)
+            register(p, sp)
         if dflt is not None:
-            registered.add(k)
-            spec.offer(o_flatten(dflt), later=True)
-            spec.check_all_valid()
+            sp.registered.add(k)
+            sp.offer(o_flatten(dflt), later=True)
+            sp.check_all_valid()
 
-    is_global, synced = False, []
-
-    def check_palette(n, k, rep, nc, what):
+    def check_palette(n, k, rep, nc, what, spec):
         got = {} if rep == "ok none" else dict(p.split("=") for p in rep[3:].split(";"))
         for a, synt in classes[k][1].items():
             want = spec.render(synt, nc)
@@ -624,49 +635,52 @@ def _oracle_walk(case, replies):
             classes.append((parents, accs, dflt))
             continue
         if op == "new":
-            if spec is not None:
-                raise _Unknown("two configurations")
             spec = _Spec(args[0] == "1")
+            spec.registered, spec.names = set(), set()
+            specs.append(spec)
             spec.offer(o_flatten(parse_cfg(args[1:])), later=False, explicit=True)
             spec.offer(o_flatten(col.ColorsConfig.BUILT_IN_CONFIG), later=False)
             spec.check_all_valid()
         elif spec is None:
             raise _Unknown("no configuration")
+        elif op == "use":
+            spec = specs[int(args[0])]
         elif op == "add":
             spec.offer(o_flatten(parse_cfg(args)), later=True)
             spec.check_all_valid()
         elif op == "reg":
-            if args[0] in names:
+            if args[0] in spec.names:
                 raise _Unknown("component registered twice")
-            names.add(args[0])
+            spec.names.add(args[0])
             spec.offer(o_flatten(parse_cfg(args[1:])), later=True)
             spec.check_all_valid()
         elif op == "pal":
             k, nc = int(args[0]), args[1] == "1"
-            register(k)
+            register(k, spec)
             if not rep.startswith("ok"):
                 return "raises: line %d %r answers %s" % (n, line, rep)
-            msg = check_palette(n, k, rep, nc, "palette")
+            msg = check_palette(n, k, rep, nc, "palette", spec)
             if msg:
                 return msg
             continue
         elif op == "glob":
             # every synced palette registers its class in the configuration that becomes the global one
-            if any(_nested_registration(classes, k, registered) for k in synced):
+            # … and from now on the synced palettes show THIS configuration, whichever was the global one before
+            if any(_nested_registration(classes, k, spec.registered) for k in synced):
                 raise _Unknown("re-entrant registration (reported separately, see SYNCED_PARENT_FINDING)")
             for k in synced:
-                register(k)
-            is_global = True
+                register(k, spec)
+            gspec = spec
         elif op == "syn":
             k = int(args[0])
             if k not in synced:
-                if is_global:
-                    register(k)
+                if gspec is not None:
+                    register(k, gspec)
                 synced.append(k)
             if not rep.startswith("ok"):
                 return "raises: line %d %r answers %s" % (n, line, rep)
-            if is_global:
-                msg = check_palette(n, k, rep, False, "synced")
+            if gspec is not None:
+                msg = check_palette(n, k, rep, False, "synced", gspec)
                 if msg:
                     return msg
             continue
@@ -674,7 +688,9 @@ def _oracle_walk(case, replies):
             k = int(args[0])
             if not rep.startswith("ok"):
                 return "raises: line %d %r answers %s" % (n, line, rep)
-            msg = check_palette(n, k, rep, False, "synced")
+            # a synced palette shows get_color of its ids in the CURRENT state of the CURRENT global configuration:
+            # after every registration, resolved or not, and whatever is registered into other configurations
+            msg = check_palette(n, k, rep, False, "synced", gspec)
             if msg:
                 return msg
             continue
@@ -711,7 +727,7 @@ def _oracle_walk(case, replies):
             raise _Unknown(op)
         if rep != "ok":
             return "raises: line %d %r answers %s" % (n, line, rep)
-    return spec
+    return spec if len(specs) == 1 else None
 
 
 def _nested_registration(classes, k, registered):
@@ -988,6 +1004,11 @@ def corpus():
     yield c(["cls 0 none %s=%s nodefaults" % (enc_str("x"), enc_str("DEMO.X")), "new 0 " + cfg_str({"TEXT": "RED"}), "glob", "syn 0",
              "add " + cfg_str({"DEMO.X": "DEMO.BASE:bold"}), "sget 0", "pal 0 0", "get " + enc_str("DEMO.X"),
              "add " + cfg_str({"DEMO.BASE": "GREEN"}), "sget 0"], "synced-pending-only")
+    # the global configuration is REPLACED: registrations into the former one must not touch the synced palettes
+    yield c(["cls 0 none %s=%s nodefaults" % (enc_str("x"), enc_str("DEMO.X")), "new 0 " + cfg_str({"DEMO.X": "RED"}),
+             "new 0 " + cfg_str({"DEMO.X": "BLUE:bold"}), "use 0", "glob", "syn 0", "use 1", "glob", "sget 0",
+             "use 0", "add " + cfg_str({"FRESH": "GREEN"}), "sget 0", "pal 0 0", "sget 0", "use 1", "get " + enc_str("DEMO.X")],
+            "global-replaced")
     # two distinct palette classes with one and the same name are two components
     yield c(["cls 0@%s none %s=%s %s" % (enc_str("Pal"), enc_str("a"), enc_str("A.ACCENT"), cfg_str({"A.ACCENT": "RED:bold"})),
              "cls 1@%s none %s=%s %s" % (enc_str("Pal"), enc_str("b"), enc_str("B.ACCENT"), cfg_str({"B.ACCENT": "A.ACCENT:/BLUE"})),
@@ -1016,6 +1037,7 @@ def gen_cases(rng, tier):
     yield from _gen_shadow(rng, tier)
     yield from _gen_palettes(rng, tier)
     yield from _gen_global(rng, tier)
+    yield from _gen_multi(rng, tier)
     yield from _gen_long(rng, tier)
     yield from _gen_malformed(rng, tier)
 
@@ -1157,6 +1179,90 @@ def _gen_global(rng, tier):
         lines.extend("sget %d" % k for k in syn)
         lines.extend(gets)
         yield {"lines": lines + ["rep", "ids"], "meta": {"kind": "global", "items": len(items), "depth": depth}}
+
+
+def _gen_multi(rng, tier):
+    """2-3 configurations take turns as the global one; registrations into the current global one, into former
+    global ones and into never-global ones; every synced palette is read after every step"""
+    for _ in range(300 if tier == "quick" else 6000):
+        items, depth = _gen_set(rng, tier)
+        probes = _probe_ids(items)
+        nconf = rng.choice([2, 2, 3])
+        ncls = rng.randint(1, 3)
+        lines = []
+        same_name = "@" + enc_str("Pal") if rng.random() < 0.2 else ""
+        # a look-alike of ak.color.global_palette: the standard accessors, no defaults of its own
+        lines.append("cls 0 none %s nodefaults" % ";".join("%s=%s" % (enc_str(a), enc_str(a.upper()))
+                                                            for a in ("name", "keyword", "ok", "warn", "error")))
+        pool = list(items)
+        rng.shuffle(pool)
+        for k in range(1, ncls + 1):
+            parents = [rng.randrange(1, k)] if k > 1 and rng.random() < 0.3 else []
+            accs = {"a%d" % i: p for i, p in enumerate(rng.sample(probes, min(len(probes), rng.randint(1, 3))))}
+            grp = [pool.pop() for _ in range(min(len(pool), rng.randint(0, 2)))]
+            dflt = cfg_str(dict(grp)) if grp and not parents else "nodefaults"
+            lines.append("cls %d%s %s %s %s" % (k, same_name, ",".join(map(str, parents)) or "none",
+                                                ";".join("%s=%s" % (enc_str(a), enc_str(x)) for a, x in accs.items()), dflt))
+        ncls += 1
+        # the configurations describe (partly) the same ids differently
+        for c in range(nconf):
+            own = {}
+            for sid, _d in rng.sample(items, rng.randint(0, len(items))):
+                own[sid] = _gen_descr(rng, None)
+            if rng.random() < 0.6:
+                own["TEXT"] = rng.choice(["RED", "BLUE:bold", "g5/(1,2,3)", "0"])
+            if rng.random() < 0.5:
+                own["WARN"] = rng.choice(["MAGENTA:blink", "NOWHERE.W", "TEXT:crossed"])
+            lines.append("new %d %s" % (1 if rng.random() < 0.05 else 0, cfg_str(own)))
+        syn, was_global, cur_global = [], set(), None
+        gets = ["get " + enc_str(p) for p in rng.sample(probes, min(3, len(probes)))]
+
+        def read_all():
+            if cur_global is not None:
+                lines.extend("sget %d" % k for k in syn)
+
+        for k in range(ncls):
+            if rng.random() < 0.35:
+                lines.append("syn %d" % k)
+                syn.append(k)
+        for step in range(rng.randint(4, 10)):
+            r = rng.random()
+            c = rng.randrange(nconf)
+            if r < 0.25:
+                lines += ["use %d" % c, "glob"]
+                if cur_global is not None:
+                    was_global.add(cur_global)
+                cur_global = c
+                was_global.discard(c)
+            elif r < 0.40:
+                k = rng.randrange(ncls)
+                lines.append("syn %d" % k)
+                if k not in syn:
+                    syn.append(k)
+            else:
+                # a registration: preferably into a configuration that WAS the global one and is not any more
+                former = sorted(was_global)
+                if former and rng.random() < 0.6:
+                    c = rng.choice(former)
+                lines.append("use %d" % c)
+                kind = rng.random()
+                if kind < 0.4 and pool:
+                    sid, d = pool.pop()
+                    lines.append("add " + cfg_str({sid: d}))
+                elif kind < 0.6:
+                    lines.append("add " + cfg_str({"NEW%d" % step: _gen_descr(rng, None), "NOWHERE.W": _gen_descr(rng, None)}))
+                elif kind < 0.75:
+                    lines.append("reg %s %s" % (enc_str("comp%d" % step), cfg_str({"NEW%d" % step: _gen_descr(rng, None)})))
+                else:
+                    lines.append("pal %d %d" % (rng.randrange(ncls), 1 if rng.random() < 0.15 else 0))
+                lines.extend(gets)
+            read_all()
+        for c in range(nconf):
+            lines.append("use %d" % c)
+            lines.extend(gets)
+            lines.append("rep")
+        read_all()
+        yield {"lines": lines, "meta": {"kind": "multi-conf", "items": len(items), "depth": depth}}
 
 
 def _long_chain(n, rng):
@@ -1375,6 +1481,27 @@ def tags(case, replies):
                 yield "palette-obtained-twice:same"
                 break
             seen[l] = r
+    nnew = sum(1 for l in lines if l.startswith("new "))
+    if nnew > 1:
+        yield "configurations:%d" % nnew
+        target, glob_i, former, seen_reg = None, None, set(), False
+        nconf = -1
+        for l in lines:
+            if l.startswith("new "):
+                nconf += 1
+                target = nconf
+            elif l.startswith("use "):
+                target = int(l.split()[1])
+            elif l == "glob":
+                if glob_i is not None and glob_i != target:
+                    former.add(glob_i)
+                glob_i = target
+                former.discard(target)
+            elif l.startswith(("add ", "reg ", "pal ")) and target in former and not seen_reg:
+                seen_reg = True
+                yield "registration-into-former-global"
+        if len(set(i for i in [glob_i] if i is not None) | former) > 1:
+            yield "global-replaced"
     if "glob" in lines:
         first = lines.index("glob")
         pre = len(set(l for l in lines[:first] if l.startswith("syn ")))
@@ -1391,7 +1518,8 @@ RULE = ("acyclic description sets of 1-6 (thorough: 2-8) ids, chains of depth <=
         "nested dictionaries; every permutation of sets of <= 4 items (sampled above), random split between the constructor and "
         "1-3 later registrations (add_new_items / register_color_conf_component / palette class defaults), queries after every "
         "registration; shadowed ids; palette classes with parent palettes; the configuration made the global one with synced "
-        "palettes created before and after, batches of pending items only under a coloured default syntax; distinct palette "
+        "palettes created before and after, batches of pending items only under a coloured default syntax; 2-3 configurations "
+        "taking turns as the global one with registrations into former global ones; distinct palette "
         "classes sharing one name; reference chains of 10-1500 (thorough 3000) links pending at once; make_report at the end of "
         "every history; malformed/unusual descriptions and cycles. "
         "non-trivial = at least one later registration and either an error reply or a coloured answer; distinct by protocol text")
@@ -1416,7 +1544,11 @@ LEVEL_TEXT = ("Kernel-checked for every history (any split of the descriptions b
               "get_color of its syntax ids in the current state, cached or not [cache_fresh]; synced palettes of the global "
               "configuration show get_color of their ids in the CURRENT state after every registration, resolved or not, nested "
               "re-syncs included [synced_fresh, synced_pending_uncoloured]; every palette class is a component of its own, identified "
-              "by the class and not by its name: registered implies all its defaults described [registered_class_described]. "
+              "by the class and not by its name: registered implies all its defaults described [registered_class_described]; with "
+              "several configurations taking turns as the global one the synced palettes show the configuration that is the global "
+              "one NOW, and a registration into any other configuration (a former global one included) touches neither them nor "
+              "the global index nor other configurations [synced_follow_current_global, non_global_registration_inert; "
+              "single_conf_same ties the one-configuration theorems to what the driver executes]. "
               "No exception and no fuel exhaustion on an explicit decidable domain: valid descriptions with an acyclic final set "
               "for histories without palettes [no_error, no_error_add, parsed_colors_accepted]; with palette classes, the global "
               "configuration and synced palettes when the class table is well-founded, all offered descriptions are valid with an "
@@ -1427,9 +1559,10 @@ LEVEL_TEXT = ("Kernel-checked for every history (any split of the descriptions b
 LEVEL_NOTE = ("Trusted: Lean kernel (axioms propext, Classical.choice, Quot.sound), translator and adapter in harness/c14.py, sampled "
               "correspondence. Not proved: an exact iff for set_global_colors_config raising (proved: never on the SyncSafe domain, "
               "always for the direct shape 'first synced class K with defaults, single parent P with defaults offering a new id'; "
+              "no_error_* are stated for one configuration per case; "
               "in between the outcome depends on the order in which the nested re-syncs meet the classes; the model reproduces the "
-              "AssertionError and the oracle does not judge that shape, see SYNCED_PARENT_FINDING). One configuration per case: a "
-              "second configuration appears only as 'another global configuration' whose colours are never read. Tables (_COLORS, "
+              "AssertionError and the oracle does not judge that shape, see SYNCED_PARENT_FINDING). The configuration that is the "
+              "global one before the first `glob` of a case is outside the model (its colours are never read). Tables (_COLORS, "
               "_COLORS_NAMES, _MODIFIERS, effect codes, BUILT_IN_CONFIG, DFLT_SYNTAX_ID) are regenerated from the source on every "
               "run; thresholds 255 / 5 / 24 are fixed in the model and probed at their boundaries by the odd-description stream.")
 TECHNIQUE = "Lean 4 theorems (invariant of the incremental resolution loop) + translator for the tables + correspondence check"
